@@ -47,8 +47,19 @@ def cards_conditions(prefix, modalias, func, shape_list, timeout, aspect, allow_
     return conds
 
 
-def indexed_shapes(max_n, min_n=1):
-    return list(enumerate(R.shapes(max_n, min_n)))
+SIBLING_GROUPS = [(((), ()), ((), ())),            # two groups of two under the root
+                  (((((), ()), ((), ())),),)]        # ... under an inner feature
+
+
+def indexed_shapes(max_n, min_n=1, siblings=True):
+    """all shapes with min_n..max_n features; below 5 features the two shapes with two sibling
+    groups under one parent are added (several defects need two same-kind groups side by side)."""
+    out = list(enumerate(R.shapes(max_n, min_n)))
+    if siblings and max_n < 5:
+        out.append((900, SIBLING_GROUPS[0]))
+    if siblings and max_n < 6:
+        out.append((901, SIBLING_GROUPS[1]))
+    return out
 
 
 def small_ctc_sets(names, depth=1, max_pairs=True):
